@@ -118,11 +118,14 @@ Qed.
 
 (* ------------------------------------------------------------------ one amplifier *)
 (* how the amplifier's parameters and the power reduction were obtained *)
-Definition sel_result (c : span_cfg) (lib : list amp) (bmin bmax pref_total prev_dp prev_voa nl : Q)
-                      (prev next : neigh) (a : ampn) (g0 pt dp0 : Q) (params : amp) (red : Q) : Prop :=
-  (n_variety (an_node a) = ""%string /\
-   auto_select (an_node a) prev next bmin bmax (c_maxl c) g0 pt (c_ext c)
-               (fun x => nf_lookup (an_nfs a) (a_name x)) lib = Ok (params, red))
+(* what a selector must guarantee (select_edfa does: C10_sel_fallback): a library entry, and the power reduction
+   min(power margin of the chosen entry, 0) *)
+Definition sel_sound (lib : list amp) (ext : Q) (sel : selector) : Prop :=
+  forall g pt s red cr, sel g pt = Ok (s, red, cr) -> In s lib /\ red = Qmin (pow_margin ext g pt s) 0.
+
+Definition sel_result (c : span_cfg) (lib : list amp) (pref_total prev_dp prev_voa nl : Q)
+                      (sel : selector) (a : ampn) (g0 pt dp0 : Q) (params : amp) (red : Q) : Prop :=
+  (n_variety (an_node a) = ""%string /\ exists cr, sel g0 pt = Ok (params, red, cr))
   \/
   (n_variety (an_node a) <> ""%string /\ find_amp (n_variety (an_node a)) lib = Some params /\
    red = if c_power_mode c then Qmin 0 (a_pmax params - (pref_total + dp0))
@@ -131,11 +134,11 @@ Definition sel_result (c : span_cfg) (lib : list amp) (bmin bmax pref_total prev
 Definition voa_auto_on (c : span_cfg) (a : ampn) (params : amp) : bool :=
   match an_ovoa a with None => c_power_mode c && a_voa_auto params | Some _ => false end.
 
-Lemma set_one_inv : forall c lib bmin bmax pref_total prev_dp prev_voa nl tp tp_arg prev next a d dp voa,
-  set_one c lib bmin bmax pref_total prev_dp prev_voa nl tp tp_arg prev next a = Ok (d, dp, voa) ->
+Lemma set_one_inv : forall c lib pref_total prev_dp prev_voa nl tp tp_arg sel a d dp voa,
+  set_one_gen c lib pref_total prev_dp prev_voa nl tp tp_arg sel a = Ok (d, dp, voa) ->
   exists g0 pt dp0 params red,
     targets c pref_total prev_dp prev_voa nl tp a = Ok (g0, pt, dp0, voa) /\
-    sel_result c lib bmin bmax pref_total prev_dp prev_voa nl prev next a g0 pt dp0 params red /\
+    sel_result c lib pref_total prev_dp prev_voa nl sel a g0 pt dp0 params red /\
     dp = dp0 + red /\
     let v := if voa_auto_on c a params then auto_voa c (a_pmax params) (a_gmax params) pt (g0 + red) else 0 in
     d_variety d = a_name params /\ d_gain d = g0 + red + v /\
@@ -144,17 +147,15 @@ Lemma set_one_inv : forall c lib bmin bmax pref_total prev_dp prev_voa nl tp tp_
     d_ovoa d = match an_ovoa a with Some x => x | None => v end /\
     d_ivoa d = ozero (an_ivoa a) /\ d_node_loss d = nl.
 Proof.
-  intros c lib bmin bmax pref_total prev_dp prev_voa nl tp tp_arg prev next a d dp voa H.
-  unfold set_one in H.
+  intros c lib pref_total prev_dp prev_voa nl tp tp_arg sel a d dp voa H.
+  unfold set_one_gen in H.
   destruct (targets c pref_total prev_dp prev_voa nl tp a) as [[[[g0 pt] dp0] voa'] | e] eqn:ET; cbn [bind] in H;
     [| discriminate].
   destruct (String.eqb (n_variety (an_node a)) "") eqn:EV.
   - apply String.eqb_eq in EV.
-    destruct (auto_select (an_node a) prev next bmin bmax (c_maxl c) g0 pt (c_ext c)
-                (fun x => nf_lookup (an_nfs a) (a_name x)) lib) as [[s red] | e] eqn:ES; cbn [bind] in H;
-      [| discriminate].
+    destruct (sel g0 pt) as [[[s red] cr] | e] eqn:ES; cbn [bind] in H; [| discriminate].
     injection H as Hd Hdp Hvoa. subst voa'.
-    exists g0, pt, dp0, s, red. split; [reflexivity |]. split; [left; split; assumption |].
+    exists g0, pt, dp0, s, red. split; [reflexivity |]. split; [left; split; [exact EV | exists cr; exact ES] |].
     split; [symmetry; exact Hdp |]. subst d. cbv zeta. unfold voa_auto_on. cbn [d_variety d_gain d_delta_p d_dp d_ovoa d_ivoa d_node_loss].
     repeat split; reflexivity.
   - apply String.eqb_neq in EV.
@@ -187,12 +188,12 @@ Proof.
       exists t; split; reflexivity.
 Qed.
 
-Lemma set_one_budget : forall c lib bmin bmax pref_total prev_dp prev_voa nl tp tp_arg prev next a d dp voa,
-  set_one c lib bmin bmax pref_total prev_dp prev_voa nl tp tp_arg prev next a = Ok (d, dp, voa) ->
+Lemma set_one_budget : forall c lib pref_total prev_dp prev_voa nl tp tp_arg sel a d dp voa,
+  set_one_gen c lib pref_total prev_dp prev_voa nl tp tp_arg sel a = Ok (d, dp, voa) ->
   d_gain d - d_ivoa d == nl + d_dp d - prev_dp + prev_voa /\ d_dp d - d_ovoa d == dp - voa.
 Proof.
-  intros c lib bmin bmax pref_total prev_dp prev_voa nl tp tp_arg prev next a d dp voa H.
-  destruct (set_one_inv _ _ _ _ _ _ _ _ _ _ _ _ _ _ _ _ H)
+  intros c lib pref_total prev_dp prev_voa nl tp tp_arg sel a d dp voa H.
+  destruct (set_one_inv _ _ _ _ _ _ _ _ _ _ _ _ _ H)
     as (g0 & pt & dp0 & params & red & HT & _ & Hdp & Hv & Hg & _ & Hd & Ho & Hi & _).
   destruct (targets_inv _ _ _ _ _ _ _ _ _ _ _ HT) as (Hb & _ & Hvoa & _).
   rewrite Hg, Hd, Ho, Hi, Hdp, Hvoa. unfold voa_auto_on.
@@ -205,16 +206,19 @@ Qed.
 
 (* ------------------------------------------------------------------ the budget along an OMS *)
 (* the span loss the design uses at each amplifier is the loss really crossed since the previous amplifier *)
+(* what the reference channel really loses in an element: a RamanFiber gives its estimated gain back *)
+Definition eff (e : elem) : Q := eloss e - rgain true e.
+
 Fixpoint budget_wf (seg : list elem) (after : list elem) : Prop :=
   match after with
   | [] => True
-  | Amp _ :: rest => node_loss_of seg == qsum (map eloss seg) /\ budget_wf [] rest
+  | Amp _ :: rest => node_loss_of seg == qsum (map eff seg) /\ budget_wf [] rest
   | x :: rest => budget_wf (x :: seg) rest
   end.
 
 Lemma design_from_budget : forall c lib bmin bmax pref_total pref_ch e after prevn seg prev_dp prev_voa p ds,
   budget_wf seg after ->
-  p == pref_ch + prev_dp - prev_voa - qsum (map eloss seg) ->
+  p == pref_ch + prev_dp - prev_voa - qsum (map eff seg) ->
   design_from c lib bmin bmax pref_total e prevn seg prev_dp prev_voa after = Ok ds ->
   Forall2 (fun q d => q == pref_ch + d_dp d) (walk p after ds) ds.
 Proof.
@@ -223,16 +227,16 @@ Proof.
   - cbn in Hd. injection Hd as <-. constructor.
   - destruct x as [f | l | a].
     + cbn [design_from] in Hd. cbn [walk]. cbn [budget_wf] in Hwf.
-      eapply IH; [exact Hwf | | exact Hd]. unfold qsum in *. cbn [map fold_right]. lra.
+      eapply IH; [exact Hwf | | exact Hd]. unfold qsum, eff in *. cbn [map fold_right]. lra.
     + cbn [design_from] in Hd. cbn [walk]. cbn [budget_wf] in Hwf.
-      eapply IH; [exact Hwf | | exact Hd]. unfold qsum in *. cbn [map fold_right]. lra.
+      eapply IH; [exact Hwf | | exact Hd]. unfold qsum, eff in *. cbn [map fold_right]. lra.
     + cbn [design_from] in Hd. cbn [budget_wf] in Hwf. destruct Hwf as [Hnl Hwf].
       match type of Hd with bind ?r _ = _ => destruct r as [[[d dp] voa] | err] eqn:ES end; cbn [bind] in Hd;
         [| discriminate].
       match type of Hd with bind ?r _ = _ => destruct r as [ds' | err] eqn:ED end; cbn [bind] in Hd;
         [| discriminate].
       injection Hd as <-. cbn [walk].
-      destruct (set_one_budget _ _ _ _ _ _ _ _ _ _ _ _ _ _ _ _ ES) as [Hg Ho].
+      destruct (set_one_budget _ _ _ _ _ _ _ _ _ _ _ _ _ ES) as [Hg Ho].
       constructor.
       * lra.
       * eapply IH; [exact Hwf | | exact ED]. unfold qsum in *. cbn [map fold_right]. lra.
@@ -267,12 +271,21 @@ Proof.
   split; [| exact Hred]. apply pool_subset in Hin. unfold restrict_lib in Hin. apply filter_In in Hin. tauto.
 Qed.
 
+Lemma edfa_selector_sound : forall c lib bmin bmax prev next a,
+  sel_sound lib (c_ext c) (edfa_selector c lib bmin bmax prev next a).
+Proof.
+  intros c lib bmin bmax prev next a g pt s red cr H. unfold edfa_selector in H.
+  match type of H with bind ?r _ = _ => destruct r as [[s' red'] | e] eqn:E end; cbn [bind] in H; [| discriminate].
+  injection H as <- <- _. exact (auto_select_red _ _ _ _ _ _ _ _ _ _ _ _ _ E).
+Qed.
+
 (* ------------------------------------------------------------------ saturation *)
 (* the power reduction: never positive, brings the total design power (and, for an auto-selected model, the gain)
    within the amplifier's limits, and is zero when the limits are already met *)
-Theorem dp_saturation : forall c lib bmin bmax pref_total prev_dp prev_voa nl tp tp_arg prev next a d dp voa g0 pt dp0 voa0,
+Theorem dp_saturation : forall c lib pref_total prev_dp prev_voa nl tp tp_arg sel a d dp voa g0 pt dp0 voa0,
+  sel_sound lib (c_ext c) sel ->
   targets c pref_total prev_dp prev_voa nl tp a = Ok (g0, pt, dp0, voa0) ->
-  set_one c lib bmin bmax pref_total prev_dp prev_voa nl tp tp_arg prev next a = Ok (d, dp, voa) ->
+  set_one_gen c lib pref_total prev_dp prev_voa nl tp tp_arg sel a = Ok (d, dp, voa) ->
   exists params, In params lib /\ a_name params = d_variety d /\
     dp <= dp0 /\
     (if String.eqb (n_variety (an_node a)) ""
@@ -285,13 +298,13 @@ Theorem dp_saturation : forall c lib bmin bmax pref_total prev_dp prev_voa nl tp
           pref_total + dp + ozero (an_ivoa a) <= a_pmax params /\
           (pref_total + dp0 + ozero (an_ivoa a) <= a_pmax params -> dp == dp0)).
 Proof.
-  intros c lib bmin bmax pref_total prev_dp prev_voa nl tp tp_arg prev next a d dp voa g0 pt dp0 voa0 HT H.
-  destruct (set_one_inv _ _ _ _ _ _ _ _ _ _ _ _ _ _ _ _ H)
+  intros c lib pref_total prev_dp prev_voa nl tp tp_arg sel a d dp voa g0 pt dp0 voa0 Hs HT H.
+  destruct (set_one_inv _ _ _ _ _ _ _ _ _ _ _ _ _ H)
     as (g0' & pt' & dp0' & params & red & HT' & Hsel & Hdp & Hv & _).
   rewrite HT in HT'. injection HT' as <- <- <- <-.
   destruct (targets_inv _ _ _ _ _ _ _ _ _ _ _ HT) as (Hb & Hpt & _ & _).
   exists params. destruct Hsel as [[Hnv Hsel] | (Hnv & Hfind & Hred)].
-  - destruct (auto_select_red _ _ _ _ _ _ _ _ _ _ _ _ _ Hsel) as [Hin Hred].
+  - destruct Hsel as [cr Hsel]. destruct (Hs _ _ _ _ _ Hsel) as [Hin Hred].
     rewrite Hnv. cbn [String.eqb]. split; [exact Hin |]. split; [symmetry; exact Hv |].
     subst dp red pt. unfold pow_margin.
     set (x := pref_total + dp0 - g0 + a_gmax params + c_ext c).
@@ -311,9 +324,10 @@ Qed.
 
 (* ------------------------------------------------------------------ output VOA *)
 (* red = the power reduction; dp = dp0 + red is what is handed to the next amplifier together with voa *)
-Theorem voa_rule : forall c lib bmin bmax pref_total prev_dp prev_voa nl tp tp_arg prev next a d dp voa g0 pt dp0 voa0,
+Theorem voa_rule : forall c lib pref_total prev_dp prev_voa nl tp tp_arg sel a d dp voa g0 pt dp0 voa0,
+  sel_sound lib (c_ext c) sel ->
   targets c pref_total prev_dp prev_voa nl tp a = Ok (g0, pt, dp0, voa0) ->
-  set_one c lib bmin bmax pref_total prev_dp prev_voa nl tp tp_arg prev next a = Ok (d, dp, voa) ->
+  set_one_gen c lib pref_total prev_dp prev_voa nl tp tp_arg sel a = Ok (d, dp, voa) ->
   exists params red, In params lib /\ a_name params = d_variety d /\ dp = dp0 + red /\
     (match an_ovoa a with
      | Some x => (* operator VOA: kept, nothing optimised *)
@@ -327,14 +341,14 @@ Theorem voa_rule : forall c lib bmin bmax pref_total prev_dp prev_voa nl tp tp_a
           else d_ovoa d = 0 /\ d_gain d == g0 + red /\ d_dp d == dp)
      end).
 Proof.
-  intros c lib bmin bmax pref_total prev_dp prev_voa nl tp tp_arg prev next a d dp voa g0 pt dp0 voa0 HT H.
-  destruct (set_one_inv _ _ _ _ _ _ _ _ _ _ _ _ _ _ _ _ H)
+  intros c lib pref_total prev_dp prev_voa nl tp tp_arg sel a d dp voa g0 pt dp0 voa0 Hs HT H.
+  destruct (set_one_inv _ _ _ _ _ _ _ _ _ _ _ _ _ H)
     as (g0' & pt' & dp0' & params & red & HT' & Hsel & Hdp & Hv & Hg & _ & Hd & Ho & _).
   rewrite HT in HT'. injection HT' as <- <- <- <-.
   destruct (targets_inv _ _ _ _ _ _ _ _ _ _ _ HT) as (_ & _ & Hvoa & _).
   assert (Hinp : In params lib).
   { destruct Hsel as [[_ Hsel] | (_ & Hfind & _)];
-      [apply auto_select_red in Hsel; tauto | apply find_amp_In in Hfind; tauto]. }
+      [destruct Hsel as [cr Hsel]; apply Hs in Hsel; tauto | apply find_amp_In in Hfind; tauto]. }
   exists params, red. split; [exact Hinp |]. split; [symmetry; exact Hv |]. split; [exact Hdp |].
   unfold voa_auto_on in *. subst dp. revert Hg Hd Ho Hvoa.
   destruct (an_ovoa a) as [x |]; destruct (c_power_mode c); cbn [andb ozero];
@@ -344,21 +358,22 @@ Qed.
 
 (* with the automatic VOA included (it is capped at the head-room), the total design power stays within p_max.
    In gain mode the saturation test of an imposed variety is made before the input VOA, hence the sign condition *)
-Theorem total_power_within_pmax : forall c lib bmin bmax pref_total prev_dp prev_voa nl tp tp_arg prev next a d dp voa,
+Theorem total_power_within_pmax : forall c lib pref_total prev_dp prev_voa nl tp tp_arg sel a d dp voa,
+  sel_sound lib (c_ext c) sel ->
   (c_power_mode c = true \/ 0 <= ozero (an_ivoa a)) ->
-  set_one c lib bmin bmax pref_total prev_dp prev_voa nl tp tp_arg prev next a = Ok (d, dp, voa) ->
+  set_one_gen c lib pref_total prev_dp prev_voa nl tp tp_arg sel a = Ok (d, dp, voa) ->
   exists params, In params lib /\ a_name params = d_variety d /\ pref_total + d_dp d <= a_pmax params.
 Proof.
-  intros c lib bmin bmax pref_total prev_dp prev_voa nl tp tp_arg prev next a d dp voa Hmode H.
-  destruct (set_one_inv _ _ _ _ _ _ _ _ _ _ _ _ _ _ _ _ H)
+  intros c lib pref_total prev_dp prev_voa nl tp tp_arg sel a d dp voa Hs Hmode H.
+  destruct (set_one_inv _ _ _ _ _ _ _ _ _ _ _ _ _ H)
     as (g0 & pt & dp0 & params & red & HT & Hsel & Hdp & Hv & Hg & _ & Hd & Ho & _).
   destruct (targets_inv _ _ _ _ _ _ _ _ _ _ _ HT) as (Hb & Hpt & _ & _).
   assert (Hinp : In params lib).
   { destruct Hsel as [[_ Hsel] | (_ & Hfind & _)];
-      [apply auto_select_red in Hsel; tauto | apply find_amp_In in Hfind; tauto]. }
+      [destruct Hsel as [cr Hsel]; apply Hs in Hsel; tauto | apply find_amp_In in Hfind; tauto]. }
   assert (Hsat' : pref_total + dp <= a_pmax params /\ red <= 0).
   { destruct Hsel as [[Hnv Hsel] | (Hnv & Hfind & Hred)].
-    - destruct (auto_select_red _ _ _ _ _ _ _ _ _ _ _ _ _ Hsel) as [_ Hred]. subst dp red pt. unfold pow_margin.
+    - destruct Hsel as [cr Hsel]. destruct (Hs _ _ _ _ _ Hsel) as [_ Hred]. subst dp red pt. unfold pow_margin.
       set (x := pref_total + dp0 - g0 + a_gmax params + c_ext c). clearbody x.
       destruct (Q.min_spec x (a_pmax params)) as [[H1 H2] | [H1 H2]];
         destruct (Q.min_spec (Qmin x (a_pmax params) - (pref_total + dp0)) 0) as [[H3 H4] | [H3 H4]];
@@ -429,9 +444,10 @@ Proof.
 Qed.
 
 (* ------------------------------------------------------------------ operator settings are kept unless they saturate *)
-Theorem user_offset_kept : forall c lib bmin bmax pref_total prev_dp prev_voa nl tp tp_arg prev next a d dp voa u,
+Theorem user_offset_kept : forall c lib pref_total prev_dp prev_voa nl tp tp_arg sel a d dp voa u,
+  sel_sound lib (c_ext c) sel ->
   c_power_mode c = true -> an_dp a = Some u ->
-  set_one c lib bmin bmax pref_total prev_dp prev_voa nl tp tp_arg prev next a = Ok (d, dp, voa) ->
+  set_one_gen c lib pref_total prev_dp prev_voa nl tp tp_arg sel a = Ok (d, dp, voa) ->
   exists params, In params lib /\ a_name params = d_variety d /\ dp <= u /\
     (if String.eqb (n_variety (an_node a)) ""
      then exists g0, g0 == nl + u - prev_dp + prev_voa + ozero (an_ivoa a) /\
@@ -440,10 +456,10 @@ Theorem user_offset_kept : forall c lib bmin bmax pref_total prev_dp prev_voa nl
     (* delta_p itself: the kept offset, plus the automatic VOA if the operator left out_voa open *)
     d_delta_p d = Some (d_dp d) /\ d_dp d - d_ovoa d == dp - voa.
 Proof.
-  intros c lib bmin bmax pref_total prev_dp prev_voa nl tp tp_arg prev next a d dp voa u Hpm Hu H.
-  destruct (set_one_inv _ _ _ _ _ _ _ _ _ _ _ _ _ _ _ _ H)
+  intros c lib pref_total prev_dp prev_voa nl tp tp_arg sel a d dp voa u Hs Hpm Hu H.
+  destruct (set_one_inv _ _ _ _ _ _ _ _ _ _ _ _ _ H)
     as (g0 & pt & dp0 & params0 & red & HT & _ & _ & _ & _ & Hdel & Hd & _).
-  destruct (dp_saturation _ _ _ _ _ _ _ _ _ _ _ _ _ _ _ _ _ _ _ _ HT H) as (params & Hin & Hname & Hle & Hsat).
+  destruct (dp_saturation _ _ _ _ _ _ _ _ _ _ _ _ _ _ _ _ _ Hs HT H) as (params & Hin & Hname & Hle & Hsat).
   destruct (targets_inv _ _ _ _ _ _ _ _ _ _ _ HT) as (Hb & _ & _ & Hcase).
   rewrite Hpm, Hu in Hcase.
   assert (E : dp0 = u) by (destruct (an_gain a); exact Hcase). subst dp0.
@@ -451,12 +467,13 @@ Proof.
   - destruct (String.eqb (n_variety (an_node a)) "").
     + exists g0. split; [lra | apply Hsat].
     + rewrite Hpm in Hsat. apply Hsat.
-  - split; [rewrite Hdel, Hd, Hpm; reflexivity | apply (set_one_budget _ _ _ _ _ _ _ _ _ _ _ _ _ _ _ _ H)].
+  - split; [rewrite Hdel, Hd, Hpm; reflexivity | apply (set_one_budget _ _ _ _ _ _ _ _ _ _ _ _ _ H)].
 Qed.
 
-Theorem user_gain_kept : forall c lib bmin bmax pref_total prev_dp prev_voa nl tp tp_arg prev next a d dp voa g,
+Theorem user_gain_kept : forall c lib pref_total prev_dp prev_voa nl tp tp_arg sel a d dp voa g,
+  sel_sound lib (c_ext c) sel ->
   c_power_mode c = false -> an_gain a = Some g ->
-  set_one c lib bmin bmax pref_total prev_dp prev_voa nl tp tp_arg prev next a = Ok (d, dp, voa) ->
+  set_one_gen c lib pref_total prev_dp prev_voa nl tp tp_arg sel a = Ok (d, dp, voa) ->
   exists params, In params lib /\ a_name params = d_variety d /\ d_gain d <= g /\
     d_delta_p d = None /\
     (* the output power the test is made on: the power entering the amplifier (before its input VOA) + the gain *)
@@ -465,10 +482,10 @@ Theorem user_gain_kept : forall c lib bmin bmax pref_total prev_dp prev_voa nl t
      then pout - ozero (an_ivoa a) <= a_pmax params -> g <= a_gmax params + c_ext c -> d_gain d == g
      else pout <= a_pmax params -> d_gain d == g).
 Proof.
-  intros c lib bmin bmax pref_total prev_dp prev_voa nl tp tp_arg prev next a d dp voa g Hpm Hg H.
-  destruct (set_one_inv _ _ _ _ _ _ _ _ _ _ _ _ _ _ _ _ H)
+  intros c lib pref_total prev_dp prev_voa nl tp tp_arg sel a d dp voa g Hs Hpm Hg H.
+  destruct (set_one_inv _ _ _ _ _ _ _ _ _ _ _ _ _ H)
     as (g0 & pt & dp0 & params0 & red & HT & _ & Hdp & _ & Hgain & Hdel & _).
-  destruct (dp_saturation _ _ _ _ _ _ _ _ _ _ _ _ _ _ _ _ _ _ _ _ HT H) as (params & Hin & Hname & Hle & Hsat).
+  destruct (dp_saturation _ _ _ _ _ _ _ _ _ _ _ _ _ _ _ _ _ Hs HT H) as (params & Hin & Hname & Hle & Hsat).
   destruct (targets_inv _ _ _ _ _ _ _ _ _ _ _ HT) as (Hb & _ & _ & Hcase).
   rewrite Hpm, Hg in Hcase. destruct Hcase as [-> Hdp0].
   assert (Hv : voa_auto_on c a params0 = false).
@@ -477,10 +494,10 @@ Proof.
   exists params. split; [exact Hin |]. split; [exact Hname |].
   split; [rewrite Hgain; subst dp; lra |]. split; [rewrite Hdel, Hpm; reflexivity |]. cbv zeta.
   destruct (String.eqb (n_variety (an_node a)) "").
-  - intros H1 H2. destruct Hsat as (_ & _ & Hs). rewrite Hgain. subst dp.
-    assert (E : dp0 + red == dp0) by (apply Hs; lra). lra.
-  - rewrite Hpm in Hsat. intros H1. destruct Hsat as [_ Hs]. rewrite Hgain. subst dp.
-    assert (E : dp0 + red == dp0) by (apply Hs; lra). lra.
+  - intros H1 H2. destruct Hsat as (_ & _ & Hs'). rewrite Hgain. subst dp.
+    assert (E : dp0 + red == dp0) by (apply Hs'; lra). lra.
+  - rewrite Hpm in Hsat. intros H1. destruct Hsat as [_ Hs']. rewrite Hgain. subst dp.
+    assert (E : dp0 + red == dp0) by (apply Hs'; lra). lra.
 Qed.
 
 (* ------------------------------------------------------------------ every amplifier of a designed OMS *)
@@ -529,7 +546,7 @@ Theorem design_within_pmax : forall c lib bmin bmax pref_ch pref_total p0 s e ch
 Proof.
   intros c lib bmin bmax pref_ch pref_total p0 s e chain ds Hm Hd. unfold design in Hd.
   eapply design_from_each_in; [| exact Hd]. intros prev_dp prev_voa nl tp tp_arg prev next a d dp voa Hin Hs.
-  eapply total_power_within_pmax; [| exact Hs].
+  unfold set_one in Hs. eapply total_power_within_pmax; [apply edfa_selector_sound | | exact Hs].
   destruct Hm as [Hm | Hm]; [left; exact Hm | right].
   rewrite Forall_forall in Hm. exact (Hm _ Hin).
 Qed.
@@ -541,7 +558,22 @@ Definition raw_el (e : elem) : Prop := match e with Fib f => f_dsl f = None | _ 
 Definition fib_pair (x : elem) (t : list elem) : Prop :=
   match x, t with Fib _, Fib _ :: _ => False | _, _ => True end.
 Fixpoint nff (l : list elem) : Prop := match l with [] => True | x :: t => fib_pair x t /\ nff t end.
-Definition seg_ok (seg : list elem) : Prop := node_loss_of seg == qsum (map eloss seg).
+Definition seg_ok (seg : list elem) : Prop := node_loss_of seg == qsum (map eff seg).
+Definition no_raman (e : elem) : Prop := match e with Fib f => f_raman f = None | _ => True end.
+
+Lemma no_raman_gain : forall b l, Forall no_raman l -> qsum (map (rgain b) l) == 0.
+Proof.
+  intros b l H. induction H as [| x t Hx _ IH]; [reflexivity |].
+  unfold qsum in *. cbn [map fold_right]. rewrite IH.
+  destruct x as [f | y | a]; cbn in *; try rewrite Hx; lra.
+Qed.
+
+Lemma no_raman_eff : forall l, Forall no_raman l -> qsum (map eff l) == qsum (map eloss l).
+Proof.
+  intros l H. induction H as [| x t Hx _ IH]; [reflexivity |].
+  unfold qsum in *. cbn [map fold_right]. rewrite IH. unfold eff.
+  destruct x as [f | y | a]; cbn in *; try rewrite Hx; lra.
+Qed.
 
 Lemma walk_gen_full : forall r p, Forall passive (p :: r) -> nff (p :: r) -> walk_gen r p = r.
 Proof.
@@ -560,22 +592,28 @@ Proof.
   cbn [walk_gen]. unfold link_ok. cbn. reflexivity.
 Qed.
 
-Lemma live_seg : forall r p t, Forall passive (p :: r) -> nff (p :: r) ->
+Lemma live_seg : forall b r p t, Forall passive (p :: r) -> nff (p :: r) ->
   match t with [] => True | Amp _ :: _ => True | _ => False end ->
-  live_loss r p t == qsum (map eloss (p :: r)).
+  live_loss b r p t == qsum (map eloss (p :: r)) - qsum (map (rgain b) (p :: r)).
 Proof.
-  intros r p t Hp Hn Ht. unfold live_loss. rewrite (walk_gen_full r p Hp Hn), (walk_gen_stop t p Ht).
+  intros b r p t Hp Hn Ht. unfold live_loss. rewrite (walk_gen_full r p Hp Hn), (walk_gen_stop t p Ht).
   inversion Hp as [| ? ? Hp1 _]; subst. unfold passive in Hp1. rewrite Hp1. unfold qsum. cbn [map fold_right]. lra.
+Qed.
+
+Lemma eff_split : forall l, qsum (map eff l) == qsum (map eloss l) - qsum (map (rgain true) l).
+Proof.
+  induction l as [| x t IH]; [reflexivity |]. unfold qsum in *. cbn [map fold_right]. rewrite IH. unfold eff. lra.
 Qed.
 
 Lemma seg_ok_live : forall seg, Forall passive seg -> nff seg ->
   match seg with Fib f :: _ => f_dsl f = None | _ => True end -> seg_ok seg.
 Proof.
   intros seg Hp Hn Hd. unfold seg_ok, node_loss_of. destruct seg as [| p r]; [reflexivity |].
+  rewrite eff_split.
   unfold span_loss. destruct p as [f | l | a]; [rewrite Hd | |]; apply live_seg; auto.
 Qed.
 
-Lemma seg_ok_cached : forall f r d, f_dsl f = Some d -> d == qsum (map eloss (Fib f :: r)) -> seg_ok (Fib f :: r).
+Lemma seg_ok_cached : forall f r d, f_dsl f = Some d -> d == qsum (map eff (Fib f :: r)) -> seg_ok (Fib f :: r).
 Proof. intros f r d Hd He. unfold seg_ok, node_loss_of, span_loss. rewrite Hd. exact He. Qed.
 
 Lemma bump_spec : forall seg node d seg' node' o,
@@ -659,17 +697,36 @@ Proof.
     rewrite E in H2. split; [exact H2 |]. apply IH; [constructor | rewrite app_nil_r; exact H1].
 Qed.
 
-(* add_fiber_padding on the last fibre of a span: afterwards the cached design loss is the loss of the span *)
+Lemma bump_no_raman : forall seg node d seg' node' o,
+  bump seg node d = (seg', node', o) -> Forall no_raman (node :: seg) -> Forall no_raman (node' :: seg').
+Proof.
+  induction seg as [| p r IH]; intros node d seg' node' o H Hn.
+  - cbn [bump] in H. destruct node as [f | l | a]; injection H as <- <- <-; try exact Hn.
+    inversion Hn; subst. constructor; [assumption | constructor].
+  - cbn [bump] in H. inversion Hn as [| ? ? Hn1 Hn2]; subst.
+    destruct (link_ok p node).
+    + destruct (bump r p d) as [[r' p'] o'] eqn:EB. injection H as <- <- <-.
+      constructor; [exact Hn1 | eapply IH; eassumption].
+    + destruct node as [f | l | a]; injection H as <- <- <-; try exact Hn.
+      constructor; [exact Hn1 | exact Hn2].
+Qed.
+
+(* add_fiber_padding on the last fibre of a span without RamanFiber: afterwards the cached design loss is the loss
+   of the span *)
 Lemma process_last : forall c done seg f t,
-  amp_headed t -> Forall passive seg -> Forall raw_el seg -> nff (Fib f :: seg) -> raw_el (Fib f) ->
+  amp_headed t -> Forall passive seg -> Forall raw_el seg -> Forall no_raman seg -> nff (Fib f :: seg) ->
+  raw_el (Fib f) -> f_raman f = None ->
   exists seg2, padr c done seg (Fib f :: t) = padr c done seg2 t /\ Forall passive seg2 /\ seg_ok seg2.
 Proof.
-  intros c done seg f t Ht Hp Hsr Hn1 Hdsl. cbn in Hdsl.
+  intros c done seg f t Ht Hp Hsr Hnr Hn1 Hdsl Hram. cbn in Hdsl.
   assert (Hp1 : Forall passive (Fib f :: seg)) by (constructor; [reflexivity | exact Hp]).
-  assert (Esl : span_loss seg (Fib f) t == qsum (map eloss (Fib f :: seg))).
-  { unfold span_loss. rewrite Hdsl. apply live_seg; auto. }
+  assert (Hnr1 : Forall no_raman (Fib f :: seg)) by (constructor; [exact Hram | exact Hnr]).
+  assert (Esl : span_loss false seg (Fib f) t == qsum (map eff (Fib f :: seg))).
+  { unfold span_loss. rewrite Hdsl. rewrite (live_seg false seg (Fib f) t Hp1 Hn1); [| destruct t as [| [| |] ?]; auto].
+    rewrite (no_raman_gain false _ Hnr1), (no_raman_eff _ Hnr1). lra. }
+  assert (Eis : is_raman f = false) by (unfold is_raman; rewrite Hram; reflexivity).
   assert (Estep : padr c done seg (Fib f :: t) =
-                  let sl := span_loss seg (Fib f) t in
+                  let sl := span_loss false seg (Fib f) t in
                   let f1 := set_dsl f sl in
                   if qltb sl (c_padding c) then
                     match bump seg (Fib f1) (c_padding c - sl) with
@@ -677,70 +734,97 @@ Proof.
                     | (seg', e2, _) => padr c done (e2 :: seg') t
                     end
                   else padr c done (Fib f1 :: seg) t).
-  { destruct t as [| [g | l | a] t']; try destruct Ht; reflexivity. }
-  rewrite Estep. cbv zeta. set (sl := span_loss seg (Fib f) t) in *.
+  { destruct t as [| [g | l | a] t']; try destruct Ht; cbn [padr]; rewrite Eis; reflexivity. }
+  rewrite Estep. cbv zeta. set (sl := span_loss false seg (Fib f) t) in *.
   assert (Hkeep : seg_ok (Fib (set_dsl f sl) :: seg)) by (eapply seg_ok_cached; [reflexivity | exact Esl]).
   assert (Hpk : Forall passive (Fib (set_dsl f sl) :: seg)) by (constructor; [reflexivity | exact Hp]).
+  assert (Hnrk : Forall no_raman (Fib (set_dsl f sl) :: seg)) by (constructor; [exact Hram | exact Hnr]).
   destruct (qltb sl (c_padding c)); [| exists (Fib (set_dsl f sl) :: seg); auto].
   destruct (bump seg (Fib (set_dsl f sl)) (c_padding c - sl)) as [[seg' e2] o] eqn:EB.
-  destruct (bump_spec _ _ _ _ _ _ EB) as (Hp' & Hfib & Ho).
-  { exact Hpk. }
+  destruct (bump_spec _ _ _ _ _ _ EB Hpk) as (Hp' & Hfib & Ho).
+  pose proof (bump_no_raman _ _ _ _ _ _ EB Hnrk) as Hnr'.
   destruct (Hfib _ eq_refl) as [f2 ->].
   destruct o as [att |].
   - rename Ho into Hsum.
     exists (Fib (set_dsl f2 (sl + (c_padding c - sl))) :: seg'). split; [reflexivity |]. split.
     + inversion Hp'; subst. constructor; [reflexivity | assumption].
     + eapply seg_ok_cached; [reflexivity |].
+      assert (Hnr2 : Forall no_raman (Fib (set_dsl f2 (sl + (c_padding c - sl))) :: seg')).
+      { inversion Hnr'; subst. constructor; assumption. }
+      rewrite (no_raman_eff _ Hnr2). rewrite (no_raman_eff _ Hnr1) in Esl.
       unfold qsum in *. cbn [map fold_right eloss] in *. unfold floss, set_dsl in *.
       cbn [f_lin f_cin f_cout f_att] in *. lra.
   - destruct Ho as [-> Heq]. injection Heq as ->.
     exists (Fib (set_dsl f sl) :: seg). auto.
 Qed.
 
+(* a RamanFiber is always the last element of its span (its estimate at the reference power may differ from the one
+   at the designed power: a cached design_span_loss behind it would not be the designed loss) *)
+Definition raman_pair (x : elem) (t : list elem) : Prop :=
+  match x, t with Fib f, Fus _ :: _ => f_raman f = None | _, _ => True end.
+Fixpoint raman_last (l : list elem) : Prop := match l with [] => True | x :: t => raman_pair x t /\ raman_last t end.
+
 Lemma padr_rwf : forall c after done seg,
-  rwf done -> amp_headed done -> Forall passive seg -> Forall raw_el after -> nff after ->
-  ((Forall raw_el seg /\ nff seg /\ match seg, after with Fib _ :: _, Fib _ :: _ => False | _, _ => True end)
+  rwf done -> amp_headed done -> Forall passive seg -> Forall raw_el after -> nff after -> raman_last after ->
+  ((Forall raw_el seg /\ Forall no_raman seg /\ nff seg /\
+    match seg, after with Fib _ :: _, Fib _ :: _ => False | _, _ => True end)
    \/ (seg_ok seg /\ amp_headed after)) ->
   rwf (padr c done seg after).
 Proof.
-  intros c after. induction after as [| x t IH]; intros done seg Hd Hh Hp Hraw Hn Hst.
+  intros c after. induction after as [| x t IH]; intros done seg Hd Hh Hp Hraw Hn Hrl Hst.
   - cbn [padr]. apply rwf_passive_app; assumption.
-  - inversion Hraw as [| ? ? Hx Ht]; subst. destruct Hn as [Hpair Hn].
+  - inversion Hraw as [| ? ? Hx Ht]; subst. destruct Hn as [Hpair Hn]. destruct Hrl as [Hrp Hrl].
     destruct x as [f | l | a].
     + (* fibre *)
-      destruct Hst as [(Hsr & Hsn & Hj) | [_ Habs]]; [| destruct Habs].
+      destruct Hst as [(Hsr & Hnr & Hsn & Hj) | [_ Habs]]; [| destruct Habs].
       assert (Hn1 : nff (Fib f :: seg)).
       { split; [| exact Hsn]. destruct seg as [| [g | | ] seg]; try exact I. exact Hj. }
-      destruct t as [| [g | l' | a'] t'].
-      * destruct (process_last c done seg f [] I Hp Hsr Hn1 Hx) as (seg2 & -> & Hp2 & Hok).
-        apply IH; [exact Hd | exact Hh | exact Hp2 | exact Ht | exact Hn | right; split; [exact Hok | exact I]].
-      * destruct Hpair.
-      * (* next is a Fused: skipped *)
-        cbn [padr].
-        apply IH; [exact Hd | exact Hh | constructor; [reflexivity | exact Hp] | exact Ht | exact Hn |].
-        left. split; [constructor; assumption |]. split; [exact Hn1 | exact I].
-      * destruct (process_last c done seg f (Amp a' :: t') I Hp Hsr Hn1 Hx) as (seg2 & -> & Hp2 & Hok).
-        apply IH; [exact Hd | exact Hh | exact Hp2 | exact Ht | exact Hn | right; split; [exact Hok | exact I]].
+      assert (Hp1 : Forall passive (Fib f :: seg)) by (constructor; [reflexivity | exact Hp]).
+      destruct (f_raman f) as [gg |] eqn:Eram.
+      * (* RamanFiber: last of its span, never padded *)
+        assert (Eis : is_raman f = true) by (unfold is_raman; rewrite Eram; reflexivity).
+        assert (Hok : seg_ok (Fib f :: seg)) by (apply seg_ok_live; auto).
+        destruct t as [| [g | l' | a'] t'].
+        -- cbn [padr]. rewrite Eis. apply rwf_passive_app; assumption.
+        -- destruct Hpair.
+        -- cbn in Hrp. congruence.
+        -- cbn [padr]. rewrite Eis.
+           apply IH; [exact Hd | exact Hh | exact Hp1 | exact Ht | exact Hn | exact Hrl | right; split; [exact Hok | exact I]].
+      * destruct t as [| [g | l' | a'] t'].
+        -- destruct (process_last c done seg f [] I Hp Hsr Hnr Hn1 Hx Eram) as (seg2 & -> & Hp2 & Hok).
+           apply IH; [exact Hd | exact Hh | exact Hp2 | exact Ht | exact Hn | exact Hrl | right; split; [exact Hok | exact I]].
+        -- destruct Hpair.
+        -- (* next is a Fused: skipped *)
+           cbn [padr].
+           apply IH; [exact Hd | exact Hh | exact Hp1 | exact Ht | exact Hn | exact Hrl |].
+           left. split; [constructor; assumption |]. split; [constructor; [exact Eram | exact Hnr] |].
+           split; [exact Hn1 | exact I].
+        -- destruct (process_last c done seg f (Amp a' :: t') I Hp Hsr Hnr Hn1 Hx Eram) as (seg2 & -> & Hp2 & Hok).
+           apply IH; [exact Hd | exact Hh | exact Hp2 | exact Ht | exact Hn | exact Hrl | right; split; [exact Hok | exact I]].
     + (* fused *)
-      destruct Hst as [(Hsr & Hsn & Hj) | [_ Habs]]; [| destruct Habs].
+      destruct Hst as [(Hsr & Hnr & Hsn & Hj) | [_ Habs]]; [| destruct Habs].
       cbn [padr].
-      apply IH; [exact Hd | exact Hh | constructor; [reflexivity | exact Hp] | exact Ht | exact Hn |].
-      left. split; [constructor; [exact I | exact Hsr] |]. split; [split; [exact I | exact Hsn] | exact I].
+      apply IH; [exact Hd | exact Hh | constructor; [reflexivity | exact Hp] | exact Ht | exact Hn | exact Hrl |].
+      left. split; [constructor; [exact I | exact Hsr] |]. split; [constructor; [exact I | exact Hnr] |].
+      split; [split; [exact I | exact Hsn] | exact I].
     + (* amplifier: the span is closed *)
-      cbn [padr]. apply IH; [| exact I | constructor | exact Ht | exact Hn |].
+      cbn [padr]. apply IH; [| exact I | constructor | exact Ht | exact Hn | exact Hrl |].
       * cbn [rwf]. rewrite (take_passive_app seg done Hp Hh). split; [| apply rwf_passive_app; assumption].
-        destruct Hst as [(Hsr & Hsn & _) | [Hok _]]; [| exact Hok].
+        destruct Hst as [(Hsr & _ & Hsn & _) | [Hok _]]; [| exact Hok].
         apply seg_ok_live; auto. destruct seg as [| [g | | ] seg]; try exact I.
         inversion Hsr as [| ? ? Hg _]; subst. exact Hg.
-      * left. split; [constructor |]. split; exact I.
+      * left. split; [constructor |]. split; [constructor |]. split; exact I.
 Qed.
 
 (* ------------------------------------------------------------------ from the OMS as loaded *)
 Definition rfib_pair (x : relem) (t : list relem) : Prop :=
   match x, t with RFib _, RFib _ :: _ => False | _, _ => True end.
 Fixpoint rnff (l : list relem) : Prop := match l with [] => True | x :: t => rfib_pair x t /\ rnff t end.
-(* an amplifier separates any two consecutive fibres (add_inline_amplifier, C08) *)
-Definition raw_ok (l : list relem) : Prop := rnff l.
+Definition rraman_pair (x : relem) (t : list relem) : Prop :=
+  match x, t with RFib f, RFus _ :: _ => rf_raman f = None | _, _ => True end.
+Fixpoint rraman_last (l : list relem) : Prop := match l with [] => True | x :: t => rraman_pair x t /\ rraman_last t end.
+(* an amplifier separates any two consecutive fibres (add_inline_amplifier, C08), and a RamanFiber ends its span *)
+Definition raw_ok (l : list relem) : Prop := rnff l /\ rraman_last l.
 
 Lemma conn_raw : forall c l, Forall raw_el (conn c l).
 Proof.
@@ -756,12 +840,21 @@ Proof.
   destruct t as [| [g | z | b] t']; try exact I. destruct Hp.
 Qed.
 
+Lemma conn_raman_last : forall c l, rraman_last l -> raman_last (conn c l).
+Proof.
+  intros c l. induction l as [| x t IH]; intros H; [exact I |].
+  destruct H as [Hp Ht]. specialize (IH Ht).
+  destruct x as [f | y | a]; cbn [conn]; (split; [| exact IH]); try exact I.
+  destruct t as [| [g | z | b] t']; try exact I. exact Hp.
+Qed.
+
 Theorem prep_budget_wf : forall c raw, raw_ok raw -> budget_wf [] (prep c raw).
 Proof.
-  intros c raw Hn. unfold prep. apply rwf_budget; [constructor |].
+  intros c raw [Hn Hr]. unfold prep. apply rwf_budget; [constructor |].
   rewrite rev_involutive, app_nil_r.
-  apply padr_rwf; [exact I | exact I | constructor | apply conn_raw | apply conn_nff; exact Hn |].
-  left. split; [constructor |]. split; [exact I |]. destruct (conn c raw); exact I.
+  apply padr_rwf; [exact I | exact I | constructor | apply conn_raw | apply conn_nff; exact Hn |
+                   apply conn_raman_last; exact Hr |].
+  left. split; [constructor |]. split; [constructor |]. split; [exact I |]. destruct (conn c raw); exact I.
 Qed.
 
 (* the budget closes along ANY OMS designed from loaded elements *)
@@ -807,4 +900,169 @@ Proof.
   split; [reflexivity |]. split; [reflexivity |]. split; [reflexivity |].
   split; [vm_compute; reflexivity |]. split; [vm_compute; reflexivity |].
   split; [vm_compute; discriminate | vm_compute; reflexivity].
+Qed.
+
+(* ------------------------------------------------------------------ the single-band (Edfa) instances *)
+Corollary set_one_budget_edfa : forall c lib bmin bmax pref_total prev_dp prev_voa nl tp tp_arg prev next a d dp voa,
+  set_one c lib bmin bmax pref_total prev_dp prev_voa nl tp tp_arg prev next a = Ok (d, dp, voa) ->
+  d_gain d - d_ivoa d == nl + d_dp d - prev_dp + prev_voa /\ d_dp d - d_ovoa d == dp - voa.
+Proof. intros. unfold set_one in *. eapply set_one_budget; eassumption. Qed.
+
+Corollary dp_saturation_edfa : forall c lib bmin bmax pref_total prev_dp prev_voa nl tp tp_arg prev next a d dp voa g0 pt dp0 voa0,
+  targets c pref_total prev_dp prev_voa nl tp a = Ok (g0, pt, dp0, voa0) ->
+  set_one c lib bmin bmax pref_total prev_dp prev_voa nl tp tp_arg prev next a = Ok (d, dp, voa) ->
+  exists params, In params lib /\ a_name params = d_variety d /\
+    dp <= dp0 /\
+    (if String.eqb (n_variety (an_node a)) ""
+     then pref_total + dp <= a_pmax params /\ g0 + (dp - dp0) <= a_gmax params + c_ext c /\
+          (pref_total + dp0 <= a_pmax params -> g0 <= a_gmax params + c_ext c -> dp == dp0)
+     else if c_power_mode c
+     then pref_total + dp <= a_pmax params /\ (pref_total + dp0 <= a_pmax params -> dp == dp0)
+     else pref_total + dp + ozero (an_ivoa a) <= a_pmax params /\
+          (pref_total + dp0 + ozero (an_ivoa a) <= a_pmax params -> dp == dp0)).
+Proof. intros. unfold set_one in *. eapply dp_saturation; eauto using edfa_selector_sound. Qed.
+
+Corollary voa_rule_edfa : forall c lib bmin bmax pref_total prev_dp prev_voa nl tp tp_arg prev next a d dp voa g0 pt dp0 voa0,
+  targets c pref_total prev_dp prev_voa nl tp a = Ok (g0, pt, dp0, voa0) ->
+  set_one c lib bmin bmax pref_total prev_dp prev_voa nl tp tp_arg prev next a = Ok (d, dp, voa) ->
+  exists params red, In params lib /\ a_name params = d_variety d /\ dp = dp0 + red /\
+    (match an_ovoa a with
+     | Some x => d_ovoa d = x /\ voa = ozero (Some x) /\ d_gain d == g0 + red /\ d_dp d == dp
+     | None =>
+         voa = 0 /\
+         (if c_power_mode c && a_voa_auto params
+          then (let raw := Qmin (a_pmax params - pt) (a_gmax params - (g0 + red)) in
+                d_ovoa d = Qmax (Qmin (round2float raw (c_voa_step c) - c_voa_margin c) raw) 0) /\
+               d_gain d == g0 + red + d_ovoa d /\ d_dp d == dp + d_ovoa d
+          else d_ovoa d = 0 /\ d_gain d == g0 + red /\ d_dp d == dp)
+     end).
+Proof. intros. unfold set_one in *. eapply voa_rule; eauto using edfa_selector_sound. Qed.
+
+Corollary user_offset_kept_edfa : forall c lib bmin bmax pref_total prev_dp prev_voa nl tp tp_arg prev next a d dp voa u,
+  c_power_mode c = true -> an_dp a = Some u ->
+  set_one c lib bmin bmax pref_total prev_dp prev_voa nl tp tp_arg prev next a = Ok (d, dp, voa) ->
+  exists params, In params lib /\ a_name params = d_variety d /\ dp <= u /\
+    (if String.eqb (n_variety (an_node a)) ""
+     then exists g0, g0 == nl + u - prev_dp + prev_voa + ozero (an_ivoa a) /\
+                     (pref_total + u <= a_pmax params -> g0 <= a_gmax params + c_ext c -> dp == u)
+     else pref_total + u <= a_pmax params -> dp == u) /\
+    d_delta_p d = Some (d_dp d) /\ d_dp d - d_ovoa d == dp - voa.
+Proof. intros. unfold set_one in *. eapply user_offset_kept; eauto using edfa_selector_sound. Qed.
+
+Corollary user_gain_kept_edfa : forall c lib bmin bmax pref_total prev_dp prev_voa nl tp tp_arg prev next a d dp voa g,
+  c_power_mode c = false -> an_gain a = Some g ->
+  set_one c lib bmin bmax pref_total prev_dp prev_voa nl tp tp_arg prev next a = Ok (d, dp, voa) ->
+  exists params, In params lib /\ a_name params = d_variety d /\ d_gain d <= g /\
+    d_delta_p d = None /\
+    let pout := pref_total + prev_dp - nl - prev_voa + g in
+    (if String.eqb (n_variety (an_node a)) ""
+     then pout - ozero (an_ivoa a) <= a_pmax params -> g <= a_gmax params + c_ext c -> d_gain d == g
+     else pout <= a_pmax params -> d_gain d == g).
+Proof. intros. unfold set_one in *. eapply user_gain_kept; eauto using edfa_selector_sound. Qed.
+
+(* ------------------------------------------------------------------ multiband OMS: the budget closes in every band *)
+Lemma mb_set_length : forall c lib nl tp tp_arg redfa prev bis st amps rs,
+  mb_set c lib nl tp tp_arg redfa prev bis st amps = Ok rs ->
+  length rs = length bis /\ length st = length bis /\ length amps = length bis.
+Proof.
+  intros c lib nl tp tp_arg redfa prev bis.
+  induction bis as [| b bs IH]; intros st amps rs H.
+  - destruct st as [| [? ?] ?]; destruct amps; cbn in H; try discriminate. injection H as <-. auto.
+  - destruct st as [| [pdp pvoa] ss]; [cbn in H; discriminate |].
+    destruct amps as [| a rest]; [cbn in H; discriminate |].
+    cbn [mb_set] in H.
+    match type of H with bind ?r _ = _ => destruct r as [r1 | e] end; cbn [bind] in H; [| discriminate].
+    match type of H with bind ?r _ = _ => destruct r as [rs1 | e] eqn:E2 end; cbn [bind] in H; [| discriminate].
+    injection H as <-. destruct (IH ss rest rs1 E2) as (L1 & L2 & L3). cbn [length]. repeat split; lia.
+Qed.
+
+Lemma mb_set_nth : forall c lib nl tp tp_arg redfa prev bis st amps rs k,
+  mb_set c lib nl tp tp_arg redfa prev bis st amps = Ok rs -> (k < length bis)%nat ->
+  exists sel, set_one_gen c lib (bi_pref_total (nth k bis (mkBI 0 0 0))) (fst (nth k st (0, 0))) (snd (nth k st (0, 0)))
+                nl tp tp_arg sel (nth k amps dummy_ampn) = Ok (nth k rs (dummy_damp, 0, 0)).
+Proof.
+  intros c lib nl tp tp_arg redfa prev bis.
+  induction bis as [| b bs IH]; intros st amps rs k H Hk; [cbn in Hk; lia |].
+  destruct st as [| [pdp pvoa] ss]; [cbn in H; discriminate |].
+  destruct amps as [| a rest]; [cbn in H; discriminate |].
+  cbn [mb_set] in H.
+  match type of H with bind ?r _ = _ => destruct r as [r1 | e] eqn:E1 end; cbn [bind] in H; [| discriminate].
+  match type of H with bind ?r _ = _ => destruct r as [rs1 | e] eqn:E2 end; cbn [bind] in H; [| discriminate].
+  injection H as <-.
+  destruct k as [| k]; cbn [nth fst snd].
+  - eexists. exact E1.
+  - cbn [length] in Hk. apply (IH ss rest rs1 k E2). lia.
+Qed.
+
+Lemma mb_node_set : forall c lib groups nl tp tp_arg prev next nd bis st amps rs,
+  mb_node c lib groups nl tp tp_arg prev next nd bis st amps = Ok rs ->
+  exists redfa, mb_set c lib nl tp tp_arg redfa prev bis st amps = Ok rs.
+Proof.
+  intros c lib groups nl tp tp_arg prev next nd bis st amps rs H. unfold mb_node in H.
+  match type of H with bind ?r _ = _ => destruct r as [bts | e] end; cbn [bind] in H; [| discriminate].
+  match type of H with bind ?r _ = _ => destruct r as [[mr redfa] | e] end; cbn [bind] in H; [| discriminate].
+  match type of H with bind ?r _ = _ => destruct r as [rs' | e] eqn:E end; cbn [bind] in H; [| discriminate].
+  destruct (common_groups groups _); [discriminate |]. injection H as <-. exists redfa. exact E.
+Qed.
+
+
+Lemma design_mb_from_budget : forall c lib groups bis pref_ch e k after prevn seg st p dss,
+  (k < length bis)%nat -> length st = length bis ->
+  budget_wf seg (proj_band k after) ->
+  p == pref_ch + fst (nth k st (0, 0)) - snd (nth k st (0, 0)) - qsum (map eff seg) ->
+  design_mb_from c lib groups bis e prevn seg st after = Ok dss ->
+  Forall2 (fun q d => q == pref_ch + d_dp d) (walk p (proj_band k after) (proj_ds k dss)) (proj_ds k dss).
+Proof.
+  intros c lib groups bis pref_ch e k after.
+  induction after as [| x rest IH]; intros prevn seg st p dss Hk Hlen Hwf Hp Hd.
+  - cbn in Hd. injection Hd as <-. constructor.
+  - destruct x as [f | l | nd amps].
+    + cbn [design_mb_from to_elem] in Hd. cbn [proj_band map to_elem] in *. cbn [walk]. cbn [budget_wf] in Hwf.
+      eapply IH; [exact Hk | exact Hlen | exact Hwf | | exact Hd]. unfold qsum, eff in *. cbn [map fold_right]. lra.
+    + cbn [design_mb_from to_elem] in Hd. cbn [proj_band map to_elem] in *. cbn [walk]. cbn [budget_wf] in Hwf.
+      eapply IH; [exact Hk | exact Hlen | exact Hwf | | exact Hd]. unfold qsum, eff in *. cbn [map fold_right]. lra.
+    + cbn [design_mb_from] in Hd. cbn [proj_band map] in *. cbn [budget_wf] in Hwf. destruct Hwf as [Hnl Hwf].
+      match type of Hd with bind ?r _ = _ => destruct r as [rs | err] eqn:EN end; cbn [bind] in Hd; [| discriminate].
+      match type of Hd with bind ?r _ = _ => destruct r as [dss' | err] eqn:ED end; cbn [bind] in Hd; [| discriminate].
+      injection Hd as <-.
+      destruct (mb_node_set _ _ _ _ _ _ _ _ _ _ _ _ _ EN) as [redfa ES].
+      destruct (mb_set_length _ _ _ _ _ _ _ _ _ _ _ ES) as (L1 & L2 & L3).
+      destruct (mb_set_nth _ _ _ _ _ _ _ _ _ _ _ k ES Hk) as [sel S1].
+      destruct (nth k rs (dummy_damp, 0, 0)) as [[d dp] voa] eqn:En.
+      destruct (set_one_budget _ _ _ _ _ _ _ _ _ _ _ _ _ S1) as [Hg Ho].
+      assert (Ed : nth k (map (fun r => fst (fst r)) rs) dummy_damp = d).
+      { change dummy_damp with ((fun r : damp * Q * Q => fst (fst r)) (dummy_damp, 0, 0)). rewrite map_nth, En. reflexivity. }
+      assert (Est : nth k (map (fun r => (snd (fst r), snd r)) rs) (0, 0) = (dp, voa)).
+      { change (0, 0) with ((fun r : damp * Q * Q => (snd (fst r), snd r)) (dummy_damp, 0, 0)). rewrite map_nth, En. reflexivity. }
+      cbn [proj_ds map walk]. rewrite Ed. constructor.
+      * lra.
+      * apply (IH NOther [] (map (fun r => (snd (fst r), snd r)) rs)); [exact Hk | rewrite map_length; exact L1 | exact Hwf | | exact ED].
+        rewrite Est. unfold qsum. cbn [map fold_right fst snd]. lra.
+Qed.
+
+(* along ANY multiband OMS and in EVERY band, the reference channel of the band leaves each Multiband_amplifier
+   (before the band's output VOA) at reference power + the band amplifier's offset *)
+Theorem budget_closed_mb : forall c lib groups bis pref_ch p0 s e chain dss k,
+  (k < length bis)%nat ->
+  budget_wf [] (proj_band k chain) ->
+  design_mb c lib groups bis pref_ch p0 s e chain = Ok dss ->
+  Forall2 (fun q d => q == pref_ch + d_dp d) (walk p0 (proj_band k chain) (proj_ds k dss)) (proj_ds k dss).
+Proof.
+  intros c lib groups bis pref_ch p0 s e chain dss k Hk Hwf Hd. unfold design_mb in Hd.
+  eapply design_mb_from_budget; [exact Hk | apply map_length | exact Hwf | | exact Hd].
+  assert (E : nth k (map (fun _ : bandinfo => (p0 - pref_ch, 0)) bis) (0, 0) = (p0 - pref_ch, 0)).
+  { rewrite (nth_indep _ (0, 0) ((fun _ : bandinfo => (p0 - pref_ch, 0)) (mkBI 0 0 0))) by (rewrite map_length; exact Hk).
+    rewrite map_nth. reflexivity. }
+  rewrite E. unfold qsum. cbn [map fold_right fst snd]. lra.
+Qed.
+
+(* each band amplifier of a multiband OMS is designed by the same set_one_amplifier: its saturation / VOA / operator
+   clauses are those of set_one_gen (dp_saturation, voa_rule, user_*_kept) with a sound selector *)
+Lemma band_selector_sound : forall c lib redfa prev b a, sel_sound lib (c_ext c) (band_selector c lib redfa prev b a).
+Proof.
+  intros c lib redfa prev b a g pt s red cr H. unfold band_selector in H.
+  match type of H with bind ?r _ = _ => destruct r as [[s' red'] | e] eqn:E end; cbn [bind] in H; [| discriminate].
+  injection H as <- <- _. unfold band_select in E.
+  destruct (select_fallback _ _ _ _ _ _ _ _ E) as (Hin & Hred & _).
+  split; [| exact Hred]. apply pool_subset in Hin. apply filter_In in Hin. tauto.
 Qed.
